@@ -36,6 +36,32 @@ CFG = {
                   "loop unwinding 4, binary-gcd loop 18 (>= 2*8+2), unwinding assertions on. Outside: IntervalDomain-level dispatch and widening hints (decided by the result-validation engine, see C02 evidence 'domain_layer'), 8-byte add/sub/mul",
         "oracle": "membership and well-formedness recomputed from the public fields start/end/stride on native integers; concrete operation = C01 reference semantics",
     },
+    "C03": {
+        "module": "c03",
+        "unwind": 4,
+        "unwindset": [(r"^gcd::.*binary_u(8|16|32|64|size)$|^<u(8|16|32|64|size) as gcd::Gcd>::gcd_binary$", 18)],
+        "functions": [
+            "BitvectorDomain::merge / merge_with (abstract_domain/bitvector.rs, AbstractDomain::merge_with default in abstract_domain/mod.rs)",
+            "Interval::signed_merge (abstract_domain/interval/simple_interval.rs)",
+            "IntervalDomain::merge = signed_merge_and_widen, update_widening_lower/upper_bound, round_*_to_stride_of (abstract_domain/interval.rs) [thorough tier]",
+            "Taint::merge / merge_with (analysis/taint/mod.rs)",
+        ],
+        "bounds": "known-bitvector values at 1 and 8 bytes; all pairs of well-formed 1-byte strided intervals (and 8-byte with strides <= 16) with all members; taint values; "
+                  "IntervalDomain::merge at 1 byte hint-free and with symbolic lower/upper widening hints and delays (thorough tier, 45 min cap each). "
+                  "Pointer/value sets with identifiers, keyed maps under the three strategies and memory regions are NOT decided by this engine (see the result-validation part of this check)",
+        "oracle": "set semantics of each domain recomputed on native integers (src/c03.rs)",
+    },
+    "C04": {
+        "module": "c04",
+        "unwind": 4,
+        "functions": [
+            "Interval::signed_intersect, compute_intersection_residue_class, extended_gcd, adjust_to_stride_and_remainder (abstract_domain/interval/simple_interval.rs)",
+            "IntervalDomain::add_not_equal_bound without hints (abstract_domain/interval.rs)",
+        ],
+        "bounds": "all pairs of well-formed 1-byte strided intervals with strides <= 15 (quick) / <= 255 (thorough) and all members; recursion/loop unwinding 16 (extended Euclid on operands < 256 needs <= 13 steps), unwinding assertions on. "
+                  "The signed/unsigned <=, >= refinements are decided by the result-validation part of this check",
+        "oracle": "membership recomputed from start/end/stride on native integers (src/c02.rs: ref_contains)",
+    },
     "C19": {
         "module": "c19",
         "unwind": 10,
